@@ -61,6 +61,10 @@ def unit_from_string(unit_str: str | None) -> pint.Unit | None:
             except Exception:
                 logger.warning(f"Invalid unit {unit_str!r}")
                 unit = None
+        except Exception:
+            # pint evaluates the string, which can raise anything (e.g. a tokenizer error)
+            logger.warning(f"Invalid unit {unit_str!r}")
+            unit = None
     else:
         unit = None
     return unit
